@@ -10,6 +10,7 @@ import Fir.Spec.FitCrop
 import Fir.Model.FitCrop
 import Fir.Proofs.FitCropLemmas
 import Mathlib.Order.Monotone.Basic
+import Fir.Proofs.IeeeLemmas
 
 namespace Fir.C15
 open Fir.Spec
@@ -89,5 +90,16 @@ theorem fit_source_as_modelled : Fir.Gen.fitCropSource = Fir.fitCropSourceModell
 
 /-! ### non-vacuity -/
 example : (0 : ℚ) ≤ 1 / 2 ∧ (0 : ℚ) < 100 := by norm_num
+
+/-! ### the premises about rounding discharged for IEEE-754 round-to-nearest-even (`Fir.Ieee.flP`) -/
+
+section IeeeInstances
+open Fir.Ieee Fir.Flt
+/-- `fitF_origin` for IEEE binary64 -/
+theorem fitF_origin_ieee (eps sw sh dw dh cx cy : ℚ) :
+    let b := Fir.Spec.fitF (flP 53) eps sw sh dw dh cx cy
+    (b.2.2.1 ≤ sw → 0 ≤ b.1 ∧ b.1 ≤ flP 53 (sw - b.2.2.1)) ∧ (b.2.2.2 ≤ sh → 0 ≤ b.2.1 ∧ b.2.1 ≤ flP 53 (sh - b.2.2.2)) :=
+  fitF_origin (flP 53) (flP_monotone 53 (by norm_num)) (flP_zero 53) (flP_idem 53 (by norm_num)) eps sw sh dw dh cx cy
+end IeeeInstances
 
 end Fir.C15
